@@ -262,6 +262,8 @@ DUMP_DEFS = [
     ("struct S { char only[33]; };", "tagged", False, False),
     ("struct S { uint8 n; uint16 v[n]; char t[n]; };", "counted", False, False),
     ("struct S { uint16 a; void v; char b[2]; };", "random", False, True),
+    ("struct S { uint8 a; struct { uint8 x; uint8 y; }; uint8 z; uint8 many[50]; };", "random", False, False),
+    ("struct S { uint8 a; uint8 *p; int16 q[3]; uint64 big[4]; };", "random", False, False),
 ]
 
 
@@ -297,7 +299,44 @@ def _listing_values(listing: str) -> dict:
     return out
 
 
-def dumpstruct_params(env, res, U, dc, viol):
+def dumpstruct_model_line(obj, raw: bytes, offset: int, color: bool) -> str:
+    """The driver line for utils._dumpstruct(obj, raw, offset, color, "string"): the class name, per entry of __fields__ the name, whether
+    its type is anonymous, the recorded size and the value as _dumpstruct distinguishes it (integers go to the model as integers; the
+    renderings the model does not carry - repr of str / Pointer / Enum, pprint.pformat of lists, str() of anything else - are computed here)."""
+    import pprint
+    from enum import Enum
+
+    from dissect.cstruct.types.pointer import Pointer
+
+    fs = []
+    for f in type(obj).__fields__:
+        anon = bool(getattr(f.type, "anonymous", False))
+        size = obj._sizes.get(f._name) if hasattr(obj, "_sizes") else None
+        if anon:
+            fs.append([f._name, 1, size if isinstance(size, int) and size >= 0 else None, [A("text"), ""]])
+            continue
+        v = getattr(obj, f._name)
+        if isinstance(v, (str, Pointer, Enum)):
+            val = [A("text"), repr(v)]
+        elif isinstance(v, int):
+            val = [A("int"), int(v)]
+        elif isinstance(v, list):
+            val = [A("list"), pprint.pformat(v)]
+        else:
+            val = [A("text"), f"{v}"]
+        fs.append([f._name, 0, size if isinstance(size, int) and size >= 0 else None, val])
+    return sx([A("dumpstruct"), type(obj).__name__, fs, raw, offset, 1 if color else 0])
+
+
+def dumpstruct_model_text(s) -> str | None:
+    """the parsed driver answer -> the string utils._dumpstruct(..., output="string") returns"""
+    if s[0] != "ok":
+        return None
+    hexpart = "\n".join(f"{int(l[0]):08x}  {str(l[1]):48s}  {str(l[2])}" for l in s[1])
+    return "\n" + hexpart + "\n\n" + "\n".join([str(s[2])] + [str(x) for x in s[3]])
+
+
+def dumpstruct_params(env, res, U, dc, viol, lines=None, metas=None):
     tier = env["tier"]
     rnd = mkrng(env["seed"], "c19:t6:dumpstruct")
     from enum import Enum
@@ -351,6 +390,12 @@ def dumpstruct_params(env, res, U, dc, viol):
                     except Exception as ex:  # noqa: BLE001
                         viol(f"dumpstruct(offset={offset}, color={color}, output={mode!r}, {form}) raised {type(ex).__name__}: {ex}", case)
                         continue
+                    if lines is not None and offset >= 0:
+                        try:
+                            lines.append(dumpstruct_model_line(obj, raw, offset, color))
+                            metas.append(("dumpstruct", case, (out,)))
+                        except Exception:  # noqa: BLE001   a structure the line cannot describe is not sent
+                            res.feat("dumpstruct-params:not-sent-to-the-model")
                     txt = re.sub(r"\033\[[0-9;]*m", "", out)
                     # colour (and the output mode / call form) changes nothing but the colour codes (color=False still ends full lines with NORMAL)
                     addr = lambda t: re.sub(r" object at 0x[0-9a-f]+>", " object>", t)  # noqa: E731   default reprs (void) name an address
@@ -372,7 +417,7 @@ def dumpstruct_params(env, res, U, dc, viol):
                             break
                         shown = vals[name]
                         ok = True
-                        if isinstance(v, Enum):
+                        if isinstance(v, Enum) or type(v).__name__ == "Pointer" or any(b.__name__ == "Pointer" for b in type(v).__mro__):
                             ok = shown == repr(v)
                         elif isinstance(v, bool):
                             pass
